@@ -43,7 +43,7 @@ def world_cfg(case):
     return {"peers": peers, "apps": [app], "sched_seed": case.get("seed", 0), "yield_all": case.get("yield_all", False),
             "policy": "random" if case.get("seed", 0) % 2 else "fifo",
             "default_dial": "ok",
-            "node_timers": {"idle": 5000, "dwa": 50, "cer": 50, "cea": 50, "wakeup": 1 if case.get("out0") else 3}}
+            "node_timers": {"idle": case.get("idle", 5000), "dwa": 50, "cer": 50, "cea": 50, "wakeup": 1 if case.get("out0") else 3}}
 
 
 def evaluate(case) -> Result:
@@ -107,8 +107,12 @@ def evaluate(case) -> Result:
             c = r["conn"]
             if c.node_closed or c.peer_closed:
                 return False
+            if c in dpr_conns:
+                return False        # a DPR was received on it: not ready any more, whatever arrives afterwards
             nc = w.node_conn_for(c)
             return nc is not None and nc.state in pm.PEER_READY_STATES
+
+        dpr_conns = []
 
         def judge_submission(r, call, first: bool, before):
             box = call["box"]
@@ -222,7 +226,26 @@ def evaluate(case) -> Result:
                     w.peer_close(c)
                 elif fk == "reset":
                     w.peer_reset(c)
+                elif fk == "watchdog":
+                    # let the idle timer run out: the node's own DWR is outstanding on this connection
+                    if case.get("idle", 5000) > 60:
+                        continue
+                    n0 = len([f for f in c.refresh() if f.is_request and f.code == 280])
+                    for _ in range(case["idle"] + 6):
+                        w.advance(1)
+                        if len([f for f in c.refresh() if f.is_request and f.code == 280]) > n0 or c.node_closed:
+                            break
+                    res.classes.append("watchdog-outstanding")
+                elif fk == "dwa":
+                    dwrs = [f for f in c.refresh() if f.is_request and f.code == 280]
+                    ids = {"hbh": dwrs[-1].h["hbh"], "e2e": dwrs[-1].h["e2e"]} if dwrs else {"hbh": 0xd70, "e2e": 0xd70}
+                    w.feed_msg(c, dict(ids, k="DWA", host=host))
+                    if c in dpr_conns:
+                        res.classes.append("dwa-after-dpr")
                 elif fk in ("dpr", "dpr-close"):
+                    nc_ = w.node_conn_for(c)
+                    if nc_ is not None and nc_.state in pm.PEER_READY_STATES:
+                        dpr_conns.append(c)
                     w.feed_msg(c, {"k": "DPR", "host": host, "hbh": 0xd00 + len(w.conns), "e2e": 0xd00 + len(w.conns)})
                     if fk == "dpr-close":
                         w.peer_close(c)
@@ -359,14 +382,14 @@ def shard_main(shard, nshards, tier, scale):
                    st.tuples(st.just("SUBMIT"), st.integers(0, 3)), st.tuples(st.just("SUBMIT"), st.integers(0, 3)),
                    st.tuples(st.just("SUBMIT_DIRECT"), st.integers(0, 3)),
                    st.tuples(st.just("SUBMIT_AGAIN"), st.integers(0, 3)), st.tuples(st.just("SUBMIT_AGAIN"), st.integers(0, 3)),
-                   st.tuples(st.just("FAULT"), st.integers(0, 2), st.sampled_from(["eof", "reset", "dpr", "dpr-close", "reconnect"])),
+                   st.tuples(st.just("FAULT"), st.integers(0, 2), st.sampled_from(["eof", "reset", "dpr", "dpr-close", "reconnect", "watchdog", "dwa", "dwa"])),
                    st.tuples(st.just("ADV"), st.sampled_from([1, 2, 4])))
 
     @st.composite
     def cases(draw):
         return {"npeers": draw(st.integers(1, 3)), "app_kind": draw(st.sampled_from(["basic", "basic", "threading"])),
                 "out0": draw(st.booleans()), "name0": draw(st.sampled_from(["peer1.example", "Peer1.Example", "PEER1.EXAMPLE"])),
-                "seed": draw(st.integers(0, 7)), "yield_all": draw(st.booleans()),
+                "seed": draw(st.integers(0, 7)), "yield_all": draw(st.booleans()), "idle": draw(st.sampled_from([5000, 5000, 3, 6])),
                 "slow": draw(st.lists(st.integers(1, 4), min_size=1, max_size=4)),
                 "events": [list(e) for e in draw(st.lists(ev, min_size=1, max_size=16))]}
 
@@ -388,6 +411,14 @@ def shard_main(shard, nshards, tier, scale):
                 ev_ += [["SUBMIT", 0], ["SUBMIT", 0], ["SUBMIT_AGAIN", 0]]
                 jobs.append({"npeers": npeers, "app_kind": "basic", "events": ev_})
                 jobs.append({"npeers": npeers, "app_kind": "basic", "events": ev_, "out0": True, "name0": "Peer1.Example"})
+    for mid in ([["FAULT", 0, "watchdog"]], [["FAULT", 0, "watchdog"], ["FAULT", 0, "dwa"]],
+                [["FAULT", 0, "watchdog"], ["FAULT", 0, "dpr"], ["FAULT", 0, "dwa"]],
+                [["FAULT", 0, "watchdog"], ["FAULT", 0, "dwa"], ["FAULT", 0, "dpr"], ["FAULT", 0, "dwa"]],
+                [["FAULT", 0, "dpr"], ["FAULT", 0, "dwa"]]):
+        for out0 in (False, True):
+            for pre in ([["REQ", 0, 0]], [["FAULT", 0, "watchdog"], ["FAULT", 0, "dwa"], ["REQ", 0, 0]]):
+                jobs.append({"npeers": 1, "app_kind": "basic", "idle": 3, "out0": out0, "name0": "peer1.example",
+                             "events": pre + mid + [["SUBMIT", 0], ["SUBMIT_AGAIN", 0]]})
     jobs.append({"npeers": 1, "app_kind": "basic", "events": [["REQ_RAISE", 0, 0], ["SUBMIT_AGAIN", 0]]})
     jobs.append({"npeers": 1, "app_kind": "basic", "events": [["REQ", 0, 0], ["SUBMIT_DIRECT", 0], ["SUBMIT_AGAIN", 0]]})
     jobs.append({"npeers": 2, "app_kind": "basic", "events": [["REQ", 0, 0], ["REQ", 1, 0], ["SUBMIT_DIRECT", 1], ["SUBMIT_AGAIN", 0], ["SUBMIT", 0]]})
@@ -404,7 +435,7 @@ def run(tier, scale=1.0):
     for d in hyp.pool_run(shard_main, (tier, scale)):
         rec.merge(d)
     required = {"schedule-exploration": 1, "deviations:2": 1, "npeers:3": 1, "app:threading": 1, "fault:eof": 1, "fault:reset": 1, "fault:dpr": 1,
-                "fault:reconnect": 1, "handler-raised-then-submit": 1, "direct-send-message": 1, "out0:True": 1, "double-submission": 1, "equal-hbh-two-conns": 1, "reqs:4": 1}
+                "fault:reconnect": 1, "watchdog-outstanding": 1, "dwa-after-dpr": 1, "handler-raised-then-submit": 1, "direct-send-message": 1, "out0:True": 1, "double-submission": 1, "equal-hbh-two-conns": 1, "reqs:4": 1}
     return finish(rec, tier=tier, level=LEVEL, rule=RULE, assumptions=ASSUME, t0=t0,
                   required_classes=required)
 
